@@ -28,6 +28,7 @@ def parseEv (ws : List String) : Option Ev :=
   match ws with
   | ["recv", t] => (parseInt? t).map Ev.recv
   | ["recvk", _, t] => (parseInt? t).map Ev.recv     -- kind of message (ping, empty ack/rst, response): all are messages from the peer
+  | ["recvslow", t, _] => (parseInt? t).map Ev.recv  -- a request whose handler takes a while: the message was received at t
   | ["tickf", t] => (parseInt? t).map Ev.tickFail
   | ["pong", g, t] => do let g ← g.toNat?; let t ← parseInt? t; some (Ev.pong g t)
   | ["tick", t] => (parseInt? t).map Ev.tick
